@@ -178,74 +178,32 @@ theorem top_leaf_depth (t : Tree) : ∀ (top : Bool) (path : List String) (inh :
     · have := ihb false _ _ _ l hl ht; simp at this
     · exact ihr top path inh d l hl ht
 
-/-- the left-out top-level leaves are exactly `hiddenTop` -/
-theorem hiddenTop_leaves (n : String) (t : Tree) : ∀ (path : List String) (inh : Bool) (d : Nat),
-    (leaves true path inh d t).any (fun l => l.top && l.info.skip && decide (l.info.name = n)) =
-      (hiddenTop t).contains n := by
+/-- the left-out leaves, with their depths, are exactly `hiddenAll` -/
+theorem hiddenAll_leaves (Q : String → Nat → Bool) (t : Tree) : ∀ (top : Bool) (path : List String) (inh : Bool) (d : Nat),
+    (hiddenAll d t).any (fun h => Q h.1 h.2) =
+      (leaves top path inh d t).any (fun l => l.info.skip && Q l.info.name l.depth) := by
   induction t with
-  | nil => intros; simp [leaves, hiddenTop]
+  | nil => intros; simp [leaves, hiddenAll]
   | field f rest ih =>
-    intro path inh d
-    simp only [leaves, hiddenTop, List.any_cons, ih path inh d]
-    by_cases hs : f.skip <;> by_cases hn : f.name = n
-    · simp [hs, hn]
-    · have hn' : ¬ (n = f.name) := fun e => hn e.symm
-      simp [hs, hn, hn']
-    · simp [hs, hn]
-    · simp [hs, hn]
+    intro top path inh d
+    simp only [leaves, hiddenAll, List.any_cons, List.any_append, ih top path inh d]
+    by_cases hs : f.skip <;> simp [hs]
   | embed nm ty p mk body rest ihb ihr =>
-    intro path inh d
-    simp only [leaves, hiddenTop, List.any_append, ihr path inh d, ↓reduceIte]
-    have : (leaves false (path ++ [nm]) mk (d + 1) body).any
-        (fun l => l.top && l.info.skip && decide (l.info.name = n)) = false := by
-      rw [List.any_eq_false]
-      intro l hl hc
-      simp only [Bool.and_eq_true] at hc
-      have := top_leaf_depth body false _ _ _ l hl hc.1.1
-      simp at this
-    rw [this, Bool.false_or]
+    intro top path inh d
+    simp only [leaves, hiddenAll, List.any_append, ihr top path inh d,
+      ihb false (path ++ [nm]) (if top then mk else inh) (d + 1)]
 
-/-- L2: on the leaves, the generator's shadow flags agree with Go's selector rule, provided no left-out
-    field of an EMBEDDED struct hides anything (region `F_nestedSkipShadows` otherwise) -/
-theorem shadow_agrees (t : Tree) (h : nestedSkipShadows t = false) :
+/-- L2: on the leaves, the generator's shadow flags agree with Go's selector rule (left-out fields at every
+    level take part in the hiding) -/
+theorem shadow_agrees (t : Tree) :
     ∀ l ∈ leavesTop t,
       genShadow t l.depth l.info.name = goShadowed t l.depth l.info.name := by
-  intro l hl
+  intro l _
   unfold goShadowed genShadow
   have hm := members_any (fun n d => decide (n = l.info.name ∧ d < l.depth)) t true [] false 0
   rw [hm]
-  have hsplit : (leaves true [] false 0 t).any
-      (fun s => s.info.skip && decide (s.info.name = l.info.name ∧ s.depth < l.depth)) =
-      (decide (0 < l.depth) && (hiddenTop t).contains l.info.name) := by
-    rw [← hiddenTop_leaves l.info.name t [] false 0]
-    cases hd : decide (0 < l.depth)
-    · -- l is at depth 0: nothing is shallower
-      simp only [Bool.false_and]
-      rw [List.any_eq_false]
-      intro s _ hc
-      simp only [Bool.and_eq_true, decide_eq_true_eq] at hc
-      simp only [decide_eq_false_iff_not] at hd
-      omega
-    · simp only [Bool.true_and]
-      simp only [decide_eq_true_eq] at hd
-      apply Bool.eq_iff_iff.mpr
-      simp only [List.any_eq_true, Bool.and_eq_true, decide_eq_true_eq]
-      constructor
-      · rintro ⟨s, hs, hsk, hn, hdep⟩
-        refine ⟨s, hs, ⟨?_, hsk⟩, hn⟩
-        -- s is left out and hides l: it must be a top-level leaf, else the region predicate fires
-        cases hst : s.top
-        · exfalso
-          unfold nestedSkipShadows at h
-          rw [List.any_eq_false] at h
-          apply h s hs
-          simp only [hst, Bool.not_false, hsk, Bool.and_self, Bool.true_and, List.any_eq_true, decide_eq_true_eq]
-          exact ⟨(l.info.name, l.depth), leaf_mem_members t true [] false 0 l hl, hn.symm, hdep⟩
-        · rfl
-      · rintro ⟨s, hs, ⟨hst, hsk⟩, hn⟩
-        have := (top_leaf_depth t true [] false 0 s hs hst).2
-        exact ⟨s, hs, hsk, hn, by omega⟩
-  rw [hsplit]
+  have hh := hiddenAll_leaves (fun n d => decide (n = l.info.name ∧ d < l.depth)) t true [] false 0
+  rw [← hh]
   rfl
 
 /-! ### general list facts -/
